@@ -28,29 +28,33 @@ MANIFEST_ENTRY = {
     "design_ref": "7.0, 7 C12",
     "level_text": (
         "Lean 4 theorems over every multi-period definition, clock, window, loop count, track layout, "
-        "source offset and segment number: VOD Periods are contiguous from 0 and their durations sum to "
-        "mediaPresentationDuration (vod_periods_contiguous, vod_periods_sum, vod_periods_end); the live "
-        "period loop terminates for every positive total duration (live_periods_terminate), lists "
-        "contiguous Periods (live_periods_contiguous) that cover [firstAvailableTime, now] "
-        "(live_periods_cover) with ids pid_loop that are pairwise distinct whenever the pids are "
-        "(live_ids_unique, via injectivity of the rendered text); number sn+k of a Period delivers source "
-        "segment i0+k where i0 is the stored segment whose start is nearest the Period's source offset "
-        "(mps_number_maps, mps_start_nearest), decode times start at the file's first decode time and are "
-        "gapless (mps_decode_zero, mps_decode_gapless), anything past the last stored segment is 404 and no "
-        "$Number$ request crashes (mps_beyond_end_404, mps_number_never_crashes); every number the Period "
-        "duration admits is served iff duration*ts <= (n-i0)*sd*10^6 (mps_admitted_partial / "
-        "mps_admitted_tight / mps_admitted_of_fits). The hand-written model is tied to the code on every "
-        "run by differential correspondence against the booted Flask app (template context of real "
-        "manifests, served bytes of real /mps/ media requests)."),
+        "source offset and segment number/time: VOD Periods are contiguous from 0 and their durations sum to "
+        "mediaPresentationDuration (vod_periods_contiguous, vod_periods_sum, vod_periods_end, "
+        "vod_periods_faithful); the live period loop terminates for every positive total duration "
+        "(live_periods_terminate), lists contiguous Periods (live_periods_contiguous) that cover "
+        "[firstAvailableTime, now] pointwise (live_periods_cover) with ids pid_loop that are pairwise distinct "
+        "whenever the pids are (live_ids_unique, via injectivity of the rendered decimal text), each a defined "
+        "Period (live_periods_source); number sn+k of a Period delivers source segment i0+k where i0 is the "
+        "stored segment whose start is nearest the Period's source offset (mps_number_maps[_no_tfdt], "
+        "mps_start_nearest), decode times start at the file's first decode time and are gapless "
+        "(mps_decode_zero, mps_decode_gapless), anything past the last stored segment is 404 and no $Number$ "
+        "request crashes (mps_beyond_end_404, mps_number_never_crashes), $Time$=t serves the segment nearest "
+        "offset+t with decode time t (mps_time_maps); every number the Period duration admits is served iff "
+        "duration*ts <= (n-i0)*sd*10^6 (mps_admitted_partial / mps_admitted_tight / mps_admitted_of_fits). The "
+        "hand-written model is tied to the code on every run by differential correspondence against the booted "
+        "Flask app (captured template context of real manifests, served bytes of real /mps/ media requests)."),
     "level_note": (
-        "Hypotheses kept explicit: total duration > 0 (excluded point: ZeroDivisionError, decide-d), loop "
-        "count nl*D <= F (the float floor-division of the builder is a model parameter; exact floor "
-        "validated by correspondence), hfit for admitted numbers (excluded point decide-d and replayed on "
-        "the app: ledger D22). Float step period.start.total_seconds()*timescale is a parameter evaluated "
-        "with IEEE doubles in the driver; the int/int rescale is modelled as the exact floor (valid below "
-        "2^53). Not modelled: what create_period puts inside a Period, XML text (ms resolution of "
-        "xs:duration: ledger D23), timeline=1 (ledger D21: every $Time$ request of a Period is 500). "
-        "Trusted: Lean kernel, harness, driver, mp4walk/segwalk, shims."),
+        "Hypotheses kept explicit: total duration > 0 (excluded point: ZeroDivisionError of the builder, "
+        "decide-d; the manifest handler now answers 404 first, fix a1efbe1), loop count nl*D <= F (the float "
+        "floor-division of the builder is a model parameter; the driver evaluates CPython's float // exactly "
+        "and correspondence checks it, incl. 0.3//0.1-style edges), hfit for admitted numbers (excluded point "
+        "decide-d and replayed on the app: open ledger entry D22). Float step "
+        "period.start.total_seconds()*timescale is a parameter evaluated with IEEE doubles in the driver; the "
+        "int/int rescale is modelled as the exact floor (valid below 2^53). Not modelled (end-to-end oracle "
+        "only): init segments, payload bytes (C03), what create_period puts inside a Period, XML text (ms "
+        "resolution of xs:duration: ledger D23), SegmentTimeline inside a Period (timeline=1: ledger D21). Four "
+        "defects fixed in /repo (65ece2e, 9437abb, 7f6dd57; a1efbe1 by c16). Trusted: Lean kernel, harness, "
+        "driver (incl. its Float steps), mp4walk/segwalk, shims."),
     "technique": "Lean 4 proof (loop-as-walk over the global period sequence, least-index characterisation of get_segment_index) + model/implementation correspondence on the booted app",
 }
 PROP_FILES = ["DashLive/Props/C12.lean"]
@@ -169,7 +173,7 @@ def ch_periods(ctx) -> Channel:
     rng = ctx.rng("periods")
     lines, recs = [], []
     with appboot.Clock("2023-01-01T00:00:00Z") as clock, c12_lib.Capture(app) as cap:
-        for _ in range(ctx.scale(110, 800)):
+        for _ in range(ctx.scale(110, 700)):
             defn = c12_lib.gen_builder_only(rng, app) if rng.random() < .75 else c12_lib.gen_inside(rng, app)
             c12_lib.create(app, defn)
             try:
@@ -592,7 +596,7 @@ def ch_e2e(ctx) -> Channel:
     rng = ctx.rng("mps_e2e")
     lines, recs = [], []
     with appboot.Clock("2023-01-01T00:00:00Z") as clock:
-        for i in range(ctx.scale(18, 110)):
+        for i in range(ctx.scale(18, 90)):
             defn = c12_lib.gen_inside(rng, app, n_periods=[1, 2, 3, 4, 2, 3, 2][i % 7])
             c12_lib.create(app, defn)
             try:
@@ -710,7 +714,7 @@ def replay_finding(ctx, finding):
 
 def search(ctx, disagreements):
     import types
-    for delta in (7919, 104729):
+    for delta in (7919,):
         c2 = types.SimpleNamespace(tier="thorough", thorough=True, seed=ctx.seed + delta, prop=PROP,
                                    rng=lambda name, d=delta: common.rng_for(ctx.seed + d, name),
                                    scale=lambda q, t: max(q, t // 3))
